@@ -36,6 +36,50 @@ func taskName(k int) string {
 	return fmt.Sprintf("t%d", k)
 }
 
+// schedList decorates the block's transaction list: the dispatcher loop of
+// executeTxsConcurrent asks it for the next transaction (Has) right after it has
+// started the previous transaction's goroutine, and parks there. So the dispatcher
+// is a scheduled task like any transaction goroutine, and at most one goroutine at a
+// time is in its unchosen start-up window (which takes its own virtual state's
+// mutex, as the dispatcher's next GetFuture / final Realize do).
+type schedList struct {
+	module.TransactionList
+	x *execCtx
+}
+
+func (l *schedList) Iterator() module.TransactionIterator {
+	return &schedIter{TransactionIterator: l.TransactionList.Iterator(), x: l.x}
+}
+
+type schedIter struct {
+	module.TransactionIterator
+	x *execCtx
+	n int
+}
+
+func calledFrom(fn string) bool {
+	var pcs [8]uintptr
+	n := runtime.Callers(3, pcs[:])
+	frames := runtime.CallersFrames(pcs[:n])
+	for {
+		f, more := frames.Next()
+		if strings.HasSuffix(f.Function, fn) {
+			return true
+		}
+		if !more {
+			return false
+		}
+	}
+}
+
+func (i *schedIter) Has() bool {
+	if i.x.active && calledFrom(".executeTxsConcurrent") {
+		i.x.yield(dispatcherTask, 0, fmt.Sprintf("next%d", i.n))
+		i.n++
+	}
+	return i.TransactionIterator.Has()
+}
+
 type park struct {
 	ch      chan struct{}
 	label   string
@@ -325,7 +369,7 @@ func (x *execCtx) drive(tr module.Transition) execOutcome {
 		x.mu.Lock()
 		for _, k := range keys {
 			p := x.parked[k]
-			fmt.Fprintf(&sb, " t%d@%s", k, p.label)
+			fmt.Fprintf(&sb, " %s@%s", taskName(k), p.label)
 			if p.attempt > 0 {
 				fmt.Fprintf(&sb, "#%d", p.attempt)
 			}
@@ -389,6 +433,7 @@ func (x *execCtx) describeBlocked() (detail, sig string) {
 	buf := make([]byte, 1<<20)
 	n := runtime.Stack(buf, true)
 	var sb strings.Builder
+	var entries []string
 	roots := map[string]bool{}
 	all := map[string]bool{}
 	for _, g := range strings.Split(string(buf[:n]), "\n\n") {
@@ -417,7 +462,7 @@ func (x *execCtx) describeBlocked() (detail, sig string) {
 		if i := strings.IndexByte(st, '['); i >= 0 {
 			st = st[i:]
 		}
-		fmt.Fprintf(&sb, "%s %s; ", st, fn)
+		entries = append(entries, fmt.Sprintf("%s %s; ", st, fn))
 		if fn != "" {
 			all[fn] = true
 			// victims: whoever waits for a commit, for a mutex somebody else holds, or (the dispatcher) for a free slot
@@ -430,6 +475,10 @@ func (x *execCtx) describeBlocked() (detail, sig string) {
 	}
 	if len(roots) == 0 {
 		roots = all
+	}
+	sort.Strings(entries)
+	for _, e := range entries {
+		sb.WriteString(e)
 	}
 	return sb.String(), strings.Join(kit.SortedKeys(roots), "+")
 }
